@@ -607,6 +607,10 @@ func (ls *List) Cost() int {
 }
 
 func (ls *List) MarshalJSON() ([]byte, error) {
+	if ls.items == nil {
+		// An empty list is "[]", also when it has no backing slice
+		return []byte("[]"), nil
+	}
 	return json.Marshal(ls.items)
 }
 
